@@ -203,6 +203,11 @@ func (r *Report) Finalize(o finalizeOpts) int {
 			nNew++
 		}
 	}
+	if os.Getenv("CJVERIF_VERBOSE") != "" {
+		for _, ob := range r.Obligations {
+			fmt.Printf("  [%s] %s %s %s :: %s\n", ob.Verdict, ob.Rule, ob.Pos, ob.Construct, ob.Evidence)
+		}
+	}
 	disc, total := 0, len(r.Obligations)
 	for _, ob := range r.Obligations {
 		if ob.Verdict == Discharged {
